@@ -4,10 +4,10 @@ SPEC = {
     "gen": [],
     "streams": [
         {"name": "writelog", "cmd": "writelog",
-         "args": {"quick": ["-cases", "48"], "thorough": ["-cases", "1500"]},
+         "args": {"quick": ["-cases", "40"], "thorough": ["-cases", "1500"]},
          "search_args": ["-cases", "400"]},
         {"name": "pblog", "cmd": "writelog",
-         "args": {"quick": ["-mode", "pblog", "-cases", "30"], "thorough": ["-mode", "pblog", "-cases", "600"]}},
+         "args": {"quick": ["-mode", "pblog", "-cases", "24"], "thorough": ["-mode", "pblog", "-cases", "600"]}},
     ],
     "trusted_base": [
         "Coq 8.16.1 kernel (coqc; coqchk in the thorough tier); no native_compute",
